@@ -223,24 +223,28 @@ func (st *Transfer) sendFile(fileIndex int32, fl file) error {
 			st.Progress.MaybeShow(uint64(offset), false)
 		}
 		n, err := f.Read(buf)
-		if err != nil {
-			if err == io.EOF {
-				break
-			}
+		if err != nil && err != io.EOF {
 			// Not a *os.PathError for SendFiles to skip the file on: part of
 			// its data is on the wire already.
 			return fmt.Errorf("reading %s: %v", fl.path, err)
 		}
-		chunk := buf[:n]
-		// chunk size (“rawtok” variable in openrsync)
-		if err := st.Conn.WriteInt32(int32(len(chunk))); err != nil {
-			return err
+		// A reader may return the last bytes together with io.EOF, and a
+		// chunk size of 0 would end the transfer.
+		if n > 0 {
+			chunk := buf[:n]
+			// chunk size (“rawtok” variable in openrsync)
+			if err := st.Conn.WriteInt32(int32(len(chunk))); err != nil {
+				return err
+			}
+			n, err2 := st.Conn.Writer.Write(chunk)
+			if err2 != nil {
+				return err2
+			}
+			offset += n
 		}
-		n, err = st.Conn.Writer.Write(chunk)
-		if err != nil {
-			return err
+		if err == io.EOF {
+			break
 		}
-		offset += n
 	}
 	if st.Opts.InfoGTE(rsyncopts.INFO_PROGRESS, 1) {
 		st.Progress.Show(uint64(offset), true)
